@@ -360,9 +360,13 @@ pub fn exec_scenario(ctx: &ExecCtx, wd: &Workdir, scn: &Scenario, built: &Built)
         if let Ok(keep) = std::env::var("RBPSIM_KEEP_TRACE") {
             let _ = fs::copy(&trace_path, format!("{}.{}", keep, ri));
         }
-        if fs::metadata(&trace_path).map(|m| m.len()).unwrap_or(0) > 300_000_000 {
-            return Err(format!("I/O trace of scenario {} exceeds 300 MB: the generator produced an unreasonable plan (tiny chunks over large data)", scn.index_no));
+        // runaway I/O (hundreds of MB of trace) is handled like a run that does not terminate
+        let runaway = fs::metadata(&trace_path).map(|m| m.len()).unwrap_or(0) > 300_000_000;
+        if runaway {
+            eprintln!("RUNAWAY scenario {} run {}: I/O trace exceeds 300 MB", scn.index_no, ri);
+            let _ = fs::write(&trace_path, b"");
         }
+        let exit = if runaway { Exit::Timeout } else { exit };
         let trace = parse_trace(&fs::read_to_string(&trace_path).unwrap_or_default());
         ctx.runs_done.fetch_add(1, Ordering::Relaxed);
         ctx.events_seen.fetch_add(trace.len() as u64, Ordering::Relaxed);
